@@ -383,6 +383,13 @@ mod verif_hooks {
             Arc::strong_count(&self.circ)
         }
     }
+    impl<T> ReadStream<T> {
+        /// Number of samples currently readable (no window, no tag copies).
+        #[must_use]
+        pub fn verif_available(&self) -> usize {
+            self.circ.wait_for_read(0)
+        }
+    }
     impl<T> WriteStream<T> {
         /// Number of handles (stream ends + live windows) on this stream.
         #[must_use]
